@@ -398,6 +398,64 @@ def rule_fourier(chk, prog):
   chk.at_least(rule, 16)
 
 
+def mask_keep_threshold(t, B, L, pad):
+  """Abstract value of a 0/1 mask along the (possibly tail-padded) total-wavenumber axis.
+
+  Returns ('index', thr): keep ⇔ position j < thr (positions 0 … L+pad−1), or
+  ('wavenumber', thr): keep ⇔ l_j < thr where l_j is the *value* of modal_axes[1]
+  (0 on padding), or None for an unrecognised construction."""
+  while t.k == 'call' and t.a[0].k == 'attr' and t.a[0].a[1] == 'astype':
+    t = t.a[0].a[0]
+  shape = L + pad
+  is_shape_l = lambda z: sym.contains(z, lambda y: y.k == 'attr' and y.a[1] == 'modal_shape')
+  base, stores = strip_stores(t)
+  if stores and match.is_ext_call(base, 'ones') and is_shape_l(base.a[1][0]):
+    if len(stores) == 1 and stores[0][1] == sym.const(0) and stores[0][0].k == 'slice' and stores[0][0].a[1] == sym.NONE and stores[0][0].a[2] == sym.NONE:
+      k = B.conv(stores[0][0].a[0])     # [-k:] = 0
+      return ('index', sp.expand(shape + k))
+    return None
+  if t.k == 'cmp' and len(t.a[0]) == 1 and t.a[0][0] in ('<', '<='):
+    lhs, rhs = t.a[1]
+    thr = B.conv(rhs) + (1 if t.a[0][0] == '<=' else 0)
+    if lhs.k == 'call' and alg.ext_short(lhs.a[0]) == 'arange' and len(lhs.a[1]) == 1 and is_shape_l(lhs.a[1][0]):
+      return ('index', sp.expand(thr))
+    if lhs.k == 'sub' and lhs.a[1] == sym.const(1) and lhs.a[0].k == 'attr' and lhs.a[0].a[1] == 'modal_axes':
+      return ('wavenumber', sp.expand(thr))
+  return None
+
+
+def clip_mask_rule(chk, prog, rule):
+  """clip_wavenumbers(x, n) keeps exactly the positions j < L − n of the total-wavenumber axis (so zeroes the top n wavenumbers *and* the tail padding)."""
+  ev2 = sym.Evaluator(prog)
+  f = prog.func(G + 'clip_wavenumbers')
+  v, ctx, env = ev2.run(f)
+  site, loc = f'{SH}.Grid.clip_wavenumbers', (f.file, f.lineno)
+  x = S(f.param_names()[1])
+  fs = match.plain_factors(v)
+  other = [t for t in fs if t != x]
+  if chk.check(len(fs) == 2 and x in fs and len(other) == 1, rule, f'{site}: multiplies by a 0/1 mask along the total-wavenumber axis', sym.show(v)[:200], loc):
+    B = alg.Algebra(ev2)
+    n = B.name(lambda t: t == S('n'), 'n', positive=True)
+    pad = B.name(lambda t: t.k == 'sub' and t.a[1] == sym.const(-1) and t.a[0].k == 'attr' and t.a[0].a[1] == 'modal_padding', 'pad_l', nonnegative=True)
+    L = B.name(lambda t: t.k == 'attr' and t.a[1] == 'total_wavenumbers', 'L', positive=True)
+    B.name(lambda t: t.k == 'sub' and t.a[1] == sym.const(-1) and t.a[0].k == 'attr' and t.a[0].a[1] == 'modal_shape', 'shape_l')
+    res = mask_keep_threshold(other[0], B, L, pad)
+    if res is None:
+      raise AnalysisError(f'{site}: unrecognised mask construction {sym.show(other[0])[:160]}')
+    kind, thr = res
+    thr = thr.subs(sp.Symbol('shape_l'), L + pad)
+    for s_ in list(thr.free_symbols):
+      if s_.name == 'shape_l':
+        thr = thr.subs(s_, L + pad)
+    thr = sp.expand(thr)
+    chk.check(kind == 'index', rule, f'{site}: the mask is decided by position along the padded axis (tail padding reads as wavenumber 0 in modal_axes and must still be zeroed)',
+              f'{kind}-based mask {sym.show(other[0])[:160]}', loc, 'position-based mask (ones(...).at[-k:].set(0) or arange(shape) < c)', f'compares wavenumber values: padding (l = 0) is kept')
+    chk.check(alg.equal(thr, L - n), rule, f'{site}: keeps exactly the positions j < total_wavenumbers − n (the last n + modal_padding[-1] columns are zeroed)', f'keep ⇔ j < {thr}', loc,
+              'j < L - n', f'j < {thr}')
+  conds = [sym.show(guards.path_cond(p)) for p, e, l in ctx.raises]
+  chk.check(any('n' in c for c in conds), rule, f'{site}: rejects non-positive n', str(conds), loc)
+
+
 # -------------------------------------------------------------- clipping
 def rule_clip(chk, prog):
   rule = 'C02.5-default-clip'
@@ -439,27 +497,7 @@ def rule_clip(chk, prog):
   x = S('x')
   ok = v.k == 'tuple' and len(v.a) == 2 and alg.equal(A.conv(v.a[0]), op('d_dlon', x) / r) and alg.equal(A.conv(v.a[1]), op('cos_lat_d_dlat', x) / r)
   chk.check(ok, 'C02.6-composition', f'{SH}.Grid.cos_lat_grad = (∂λ x, cosθ∂θ x) / radius', sym.show(v)[:200], (f.file, f.lineno))
-  # clip_wavenumbers itself
-  ev2 = sym.Evaluator(prog)
-  f = prog.func(G + 'clip_wavenumbers')
-  v, ctx, env = ev2.run(f)
-  site, loc = f'{SH}.Grid.clip_wavenumbers', (f.file, f.lineno)
-  x = S(f.param_names()[1])
-  fs = match.plain_factors(v)
-  other = [t for t in fs if t != x]
-  if chk.check(len(fs) == 2 and x in fs and len(other) == 1, rule, f'{site}: multiplies by a 0/1 mask along the total-wavenumber axis', sym.show(v)[:200], loc):
-    base, stores = strip_stores(other[0])
-    okb = match.is_ext_call(base, 'ones') and sym.contains(base.a[1][0], lambda t: t.k == 'attr' and t.a[1] == 'modal_shape')
-    oks = len(stores) == 1 and stores[0][1] == sym.const(0) and stores[0][0].k == 'slice' and stores[0][0].a[1] == sym.NONE
-    chk.check(okb and oks, rule, f'{site}: mask = ones(modal_shape[-1]) with a trailing block set to 0', sym.show(other[0])[:200], loc)
-    if oks:
-      B = alg.Algebra(ev2)
-      n = B.name(lambda t: t == S('n'), 'n')
-      pad = B.name(lambda t: t.k == 'sub' and t.a[1] == sym.const(-1) and t.a[0].k == 'attr' and t.a[0].a[1] == 'modal_padding', 'pad_l')
-      chk.check(alg.equal(B.conv(stores[0][0].a[0]), -(n + pad)), rule, f'{site}: the zeroed block is the last n + modal_padding[-1] columns (padding-aware)', sym.show(stores[0][0]), loc,
-                '-(n + modal_padding[-1]):', sym.show(stores[0][0]))
-  conds = [sym.show(guards.path_cond(p)) for p, e, l in ctx.raises]
-  chk.check(any('n' in c for c in conds), rule, f'{site}: rejects non-positive n', str(conds), loc)
+  clip_mask_rule(chk, prog, rule)
   chk.at_least(rule, 9)
   chk.at_least('C02.6-composition', 3)
 
